@@ -196,6 +196,7 @@ func verifC42NewConn(id, requests int) *verifC42Conn {
 //
 //verif:use ipc pipe handler
 //verif:sched quick=1 thorough=2
+//verif:race
 //verif:stub os/signal.Ignore = verifC42SignalIgnore
 //verif:stub os.Remove = verifC42Remove
 //verif:stub os.Chmod = verifC42Chmod
